@@ -38,17 +38,12 @@ def c12_1(c: Ctx) -> None:
     for n in own_nodes(u.node):
         if isinstance(n, ast.Assign) and isinstance(n.targets[0], ast.Name) and isinstance(n.value, ast.Call) and call_name(n.value) in ('model_validate', 'validate_python', 'validate_json'):
             validated_locals.setdefault(n.targets[0].id, []).append(n)
-    type_test = None
-    for n in own_nodes(u.node):
-        if isinstance(n, ast.If) and f'{self_}.result_type is not None' in U(n.test) and f'{raw} is not None' in U(n.test):
-            type_test = n
-    if type_test is None:
-        c.fail(u, 'no `if self.result_type is not None and result is not None` test', 'results are never validated against the declared type')
-        return
-    tt = U(type_test.test)
+    # every branch test of the function may be remembered as a (compound) fact; the guard is decided by propositional entailment
+    tests = {U(n.test) for n in own_nodes(u.node) if isinstance(n, ast.If)}
     fwd = f'isinstance({raw}, BaseEvent)'
-    tracked = {tt, fwd, f'{self_}.result_type', raw}
+    tracked = set(tests) | {fwd, f'{self_}.result_type', raw}
     facts = Facts(lambda a: a in tracked, cg=c.cg, unit=u, ignore_writes={'status', 'result', 'error', 'started_at', 'completed_at'})
+    raw_guard = f'{fwd} or {self_}.result_type is None or {raw} is None'
     n_valid = 0
     for w in ws:
         v = strip_cast(w.node.value)
@@ -75,7 +70,7 @@ def c12_1(c: Ctx) -> None:
             c.ok(where(u, st), 'self.result <- None')
         elif isinstance(v, ast.Name) and v.id == raw:
             for n in g.nodes_of(st):
-                p = q.guard_search(g, n, f'{fwd} or not ({tt})', facts)
+                p = q.guard_search(g, n, raw_guard, facts)
                 if p is None:
                     c.ok(where(u, st), f'raw value stored only when no type is declared, it is None, or it is a forwarded event')
                 else:
@@ -84,6 +79,8 @@ def c12_1(c: Ctx) -> None:
             c.fail(u, f'self.result assigned from {U(w.node.value)[:60]}', 'result stored from a value the analysis cannot relate to validation', node=st)
     if n_valid == 0:
         c.fail(u, 'no assignment of a validated value to self.result', 'declared result types are not enforced')
+    # raw_defs alias when the raw value arrives through a folded helper parameter
+
     # the exception arm
     val_calls = [n for n in own_nodes(u.node) if isinstance(n, ast.Call) and call_name(n) in ('model_validate', 'validate_python', 'TypeAdapter')]
     tries = {id(t): t for vc in val_calls for t in q.ancestors_of(vc) if isinstance(t, ast.Try) and q.lexically_in(vc, t, 'body')}
@@ -133,6 +130,56 @@ def c12_2(c: Ctx) -> None:
             if isinstance(x, ast.Attribute) and U(x.value) == f'{self_}.result_type' and x.attr.startswith('__'):
                 c.fail(u, f'except arm dereferences {U(x)}', 'building the validation-error message raises AttributeError for result types without that attribute: the original validation outcome is lost', node=x)
     c.ok(where(u), 'validation-error arm does not dereference dunder attributes of the declared type')
+
+
+FRESH_CALLS = {'list', 'dict', 'set', 'sorted', 'tuple', 'copy', 'deepcopy', 'defaultdict', 'OrderedDict'}
+VIEW_MUTATORS = {'append', 'extend', 'update', 'insert', 'pop', 'remove', 'clear', 'setdefault', 'sort', 'reverse', 'add', 'discard', 'popitem', '__setitem__'}
+
+
+def _fresh(v: ast.AST) -> bool:
+    if isinstance(v, (ast.List, ast.Dict, ast.Set, ast.ListComp, ast.DictComp, ast.SetComp, ast.Tuple)):
+        return True
+    if isinstance(v, ast.Call):
+        f = v.func
+        nm = f.id if isinstance(f, ast.Name) else f.attr if isinstance(f, ast.Attribute) else ''
+        return nm in FRESH_CALLS
+    return False
+
+
+def impure_view_writes(c: Ctx, u: Unit) -> list[tuple[ast.AST, str]]:
+    """Mutations inside an accessor that can reach a recorded result: a mutator call / subscript store / attribute store whose receiver is not a
+    container created in this function (every binding of the local must be a literal, a comprehension or list()/dict()/set()/sorted()/copy())."""
+    out: list[tuple[ast.AST, str]] = []
+    defs: dict[str, list[ast.AST]] = {}
+    for n in own_nodes(u.node):
+        if isinstance(n, (ast.Assign, ast.AnnAssign)) and n.value is not None:
+            for t in (n.targets if isinstance(n, ast.Assign) else [n.target]):
+                if isinstance(t, ast.Name):
+                    defs.setdefault(t.id, []).append(n.value)
+        elif isinstance(n, (ast.For, ast.comprehension)):
+            for x in ast.walk(n.target):
+                if isinstance(x, ast.Name):
+                    defs.setdefault(x.id, []).append(n.iter)  # loop variables alias elements of what is iterated
+
+    def fresh_name(nm: str) -> bool:
+        ds = [d for d in defs.get(nm, []) if not (isinstance(d, ast.Constant) and d.value is None)]
+        return bool(ds) and all(_fresh(d) for d in ds)
+
+    for n in own_nodes(u.node):
+        if isinstance(n, ast.Call) and isinstance(n.func, ast.Attribute) and n.func.attr in VIEW_MUTATORS:
+            r = n.func.value
+            if isinstance(r, ast.Name):
+                if not fresh_name(r.id):
+                    out.append((n, f'`{U(n)[:60]}` mutates `{r.id}`, which may alias a recorded result ({[U(d)[:30] for d in defs.get(r.id, [])]})'))
+            elif isinstance(r, (ast.Attribute, ast.Subscript)) and not (isinstance(r, ast.Attribute) and isinstance(r.value, ast.Name) and r.value.id in ('logger',)):
+                out.append((n, f'`{U(n)[:60]}` mutates {U(r)[:40]}'))
+        elif isinstance(n, (ast.Assign, ast.AugAssign)):
+            for t in (n.targets if isinstance(n, ast.Assign) else [n.target]):
+                if isinstance(t, ast.Subscript) and isinstance(t.value, ast.Name) and not fresh_name(t.value.id):
+                    out.append((n, f'`{U(n)[:60]}` writes into `{t.value.id}`, which may alias a recorded result'))
+                elif isinstance(t, ast.Attribute) and not (isinstance(t.value, ast.Name) and t.value.id in (u.params()[0],)) :
+                    out.append((n, f'`{U(n)[:60]}` assigns an attribute of {U(t.value)[:30]}'))
+    return out
 
 
 @ob('C12.3', 'SIB', 'each of the six accessor wrappers calls event_results_filtered exactly once, forwards timeout / include / raise_if_any / raise_if_none unchanged (the flat_* '
@@ -190,6 +237,11 @@ def c12_3(c: Ctx) -> None:
                 if isinstance(st_, ast.If) and any(isinstance(b, (ast.Continue, ast.Break)) for b in st_.body):
                     if not (var and U(st_.test) == f'not {var}.result'):
                         c.fail(u, f'{name}: merge loop skips results under `{U(st_.test)[:60]}`', f'{name} silently drops results that passed the filter', node=st_)
+        impure = impure_view_writes(c, u)
+        for node_, why_ in impure:
+            c.fail(u, f'{name}: {why_}', f'{name} is not a pure view: calling it mutates a recorded handler result (results of a completed event change; every further call changes them again)', node=node_)
+        if not impure:
+            c.ok(where(u), f'{name}: mutates only containers it created itself')
         idx = [n for n in own_nodes(u.node) if isinstance(n, ast.Subscript) and isinstance(n.slice, ast.Constant) and isinstance(n.slice.value, int)]
         if name == 'event_result':
             if idx and all(n.slice.value == 0 for n in idx):
@@ -221,7 +273,10 @@ def c12_4(c: Ctx) -> None:
     src_ok = len(comp.generators) == 1 and isinstance(gen.iter, ast.Call) and call_name(gen.iter) == 'items'
     src = U(gen.iter.func.value) if src_ok else ''
     # source must be all results (self.event_results or an unfiltered copy of it)
-    full = src.endswith('.event_results') or (src in comps and not comps[src].generators[0].ifs and U(comps[src].generators[0].iter).endswith('.event_results.items()')
+    plain_copies = {U(n.targets[0] if isinstance(n, ast.Assign) else n.target) for n in own_nodes(u.node) if isinstance(n, (ast.Assign, ast.AnnAssign)) and n.value is not None
+                    and ((isinstance(n.value, ast.Call) and U(n.value.func) == 'dict' and len(n.value.args) == 1 and U(n.value.args[0]).endswith('.event_results'))
+                         or (isinstance(n.value, ast.Call) and U(n.value.func).endswith('.event_results.copy')))}
+    full = src.endswith('.event_results') or src in plain_copies or (src in comps and not comps[src].generators[0].ifs and U(comps[src].generators[0].iter).endswith('.event_results.items()')
                                               and U(comps[src].key) == U(comps[src].generators[0].target.elts[0]) and U(comps[src].value) == U(comps[src].generators[0].target.elts[1]))
     ident = isinstance(gen.target, ast.Tuple) and U(comp.key) == U(gen.target.elts[0]) and U(comp.value) == U(gen.target.elts[1])
     only_inc = len(gen.ifs) == 1 and U(gen.ifs[0]) == f'include({U(gen.target.elts[1])})' if isinstance(gen.target, ast.Tuple) else False
